@@ -74,8 +74,12 @@ class ForkChecker(RS.TxChecker):
         self.kind = kind
 
     def check_sig(self, sig, pubkey, script_code, sigversion):
-        if self.kind in ("bch", "btg") and sig and not (sig[-1] & 0x40):
-            return False
+        if self.kind in ("bch", "btg") and sig and not (sig[-1] & 0x40) and sigversion == RS.SIGVERSION_BASE:
+            # (witness-v0 checks are left out of the refusal clause: these coins have no segwit, and the statement's
+            # "fork-id variants" are the digests that replace the legacy algorithm)
+            # fork-id coins REFUSE a hash type without the fork-id bit: the signature check does not merely come out
+            # false (which "... CHECKSIG NOT" would turn into success), the spend fails (BCH: SCRIPT_ERR_MUST_USE_FORKID)
+            raise RS.ScriptErr("MUST_USE_FORKID")
         return RS.TxChecker.check_sig(self, sig, pubkey, script_code, sigversion)
 
     def sighash(self, script_code, hash_type, sigversion):
